@@ -100,6 +100,12 @@ fn main() {
                     "c11" => AnyCase::Dur(gen::c11_random(run_seed)),
                     "c11enum" => AnyCase::Dur(gen::c11_enum(i, 5, if p1 == 0 { 10000 } else { p1 as usize })),
                     "c12" => AnyCase::Dur(gen::c12_random(run_seed)),
+                    "c13" => AnyCase::Dur(gen::c13_history(run_seed)),
+                    "c14" => AnyCase::Dur(gen::c14_base(run_seed)),
+                    "c16" => AnyCase::Dur(gen::c16_history(run_seed)),
+                    "c17" => AnyCase::Dur(gen::c17_history(run_seed)),
+                    "post_standard" => AnyCase::Dur(dur::Case { ops: gen::post_ops_standard(), ..Default::default() }),
+                    "post_catalog" => AnyCase::Dur(dur::Case { ops: gen::post_ops_catalog(), ..Default::default() }),
                     other => {
                         eprintln!("unknown family {other}");
                         std::process::exit(2);
